@@ -272,6 +272,11 @@ class Bag(Factory, Container):
             else:
                 raise JsonFormatException(json["name"], "Bag.name")
 
+            if isinstance(json["range"], basestring):
+                range = json["range"]
+            else:
+                raise JsonFormatException(json["range"], "Bag.range")
+
             if json["values"] is None:
                 values = None
 
@@ -284,17 +289,20 @@ class Bag(Factory, Container):
                         else:
                             raise JsonFormatException(nv["w"], f"Bag.values {i} n")
 
-                        if nv["v"] in ("nan", "inf", "-inf") or isinstance(nv["v"], numbers.Real):
-                            v = floatOrNan(nv["v"])
-                        elif isinstance(nv["v"], basestring):
+                        # the value must have the type the range declares: a string, a number, or a vector of numbers
+                        if range == "S":
+                            if not isinstance(nv["v"], basestring):
+                                raise JsonFormatException(nv["v"], f"Bag.values {i} v (range {range})")
                             v = nv["v"]
-                        elif isinstance(nv["v"], (list, tuple)):
+                        elif range == "N" and (nv["v"] in ("nan", "inf", "-inf") or isinstance(nv["v"], numbers.Real)):
+                            v = floatOrNan(nv["v"])
+                        elif range[1:].isdigit() and isinstance(nv["v"], (list, tuple)) and len(nv["v"]) == int(range[1:]):
                             for j, d in enumerate(nv["v"]):
                                 if d not in ("nan", "inf", "-inf") and not isinstance(d, numbers.Real):
                                     raise JsonFormatException(d, f"Bag.values {i} v {j}")
                             v = tuple(map(floatOrNan, nv["v"]))
                         else:
-                            raise JsonFormatException(nv["v"], f"Bag.values {i} v")
+                            raise JsonFormatException(nv["v"], f"Bag.values {i} v (range {range})")
 
                         values[v] = n
 
@@ -306,11 +314,6 @@ class Bag(Factory, Container):
 
             else:
                 raise JsonFormatException(json["values"], "Bag.values")
-
-            if isinstance(json["range"], basestring):
-                range = json["range"]
-            else:
-                raise JsonFormatException(json["range"], "Bag.range")
 
             out = Bag.ed(entries, values, range)
             out.quantity.name = nameFromParent if name is None else name
